@@ -382,10 +382,11 @@ Section BRIDGE.
   Proof. intros He Hq. rewrite ev_in_wref, He, Hq, first_col_fp. now rewrite in_values_int. Qed.
 
   Definition slf_select (id : string) (main : select) (cond : expr) : select :=
-    and_where [cond] (and_where [In (Id "fingerprint") [WRef id main]]
+    and_where [cond] (and_where [In (Id "fingerprint") [WRef id main]; Ge (Id "date") (format_from_date c); get_types c]
       (set_from (Id (t_ts c)) (set_cols [Id "fingerprint"] (with_ [(id, main)] empty_select)))).
   Definition slf_list (F : list Z) (f : label_filter) : list Z :=
-    map ts_fp (filter (fun s => memz (ts_fp s) F && lf_ok re_match parse_float (ts_labels s) f) (d_series d)).
+    map ts_fp (filter (fun s => memz (ts_fp s) F && Z.leb (from_day (c_from_ns c)) (ts_day s) && type_in c (ts_type s)
+                               && lf_ok re_match parse_float (ts_labels s) f) (d_series d)).
   Lemma es_slf id main cond f F : ES main = Some (map fp_row F) ->
     lf_cond json_getter f = Some cond -> lf_oracle_ok parse_float f ->
     ES (slf_select id main cond) = Some (map fp_row (slf_list F f)).
@@ -394,11 +395,18 @@ Section BRIDGE.
     cbn [s_distinct s_offset s_unions s_from s_joins s_prewhere s_where s_groupby s_having s_orderby s_limit s_cols
          and_where and_into set_where set_from set_cols with_ add_withs set_withs empty_select fold_left app And].
     rewrite et_ts, arow_fp_id.
-    rewrite (filter_opt_map_total tenv _ (fun s => memz (ts_fp s) F && lf_ok re_match parse_float (ts_labels s) f)).
+    rewrite (filter_opt_map_total tenv _ (fun s => memz (ts_fp s) F && Z.leb (from_day (c_from_ns c)) (ts_day s) && type_in c (ts_type s)
+                                                   && lf_ok re_match parse_float (ts_labels s) f)).
     2:{ intros s _. unfold cond_ok.
         pose proof (ev_in_sub (Id "fingerprint") id main [tenv s] (ts_fp s) F eq_refl Hm) as HI.
         pose proof (ev_lf_cond (tenv s) [] (ts_labels s) eq_refl f cond Hc Ho) as HC.
-        rewrite (ev_and2 _ _ _ _ _ HI HC), truthy_vbool. reflexivity. }
+        rewrite (ev_and_bools _ [memz (ts_fp s) F; Z.leb (from_day (c_from_ns c)) (ts_day s); type_in c (ts_type s);
+                                 lf_ok re_match parse_float (ts_labels s) f]).
+        2: discriminate.
+        2:{ constructor; [exact HI|]. constructor.
+            - unfold Ge, format_from_date. cbn [ev]. change (lookup "date" (tenv s)) with (Some (VInt (ts_day s))). apply vcmp_ge_int.
+            - constructor; [now apply ev_get_types|]. constructor; [exact HC|constructor]. }
+        rewrite truthy_vbool. cbn [forallb]. now rewrite !andb_true_r, !andb_assoc. }
     cbn [order_groups]. rewrite map_map. unfold slf_list.
     rewrite (map_opt_map_total _ _ (fun s => fp_row (ts_fp s))) by (intros s _; reflexivity).
     now rewrite map_map.
@@ -949,14 +957,16 @@ Section BRIDGE.
     Qed.
 
     (* the SimpleLabelFilterPlanner chain keeps the fingerprints whose labels pass each filter *)
-    Lemma slf_list_in F f fp : (forall z, List.In z F -> exists s, List.In s (d_series d) /\ ts_fp s = z) ->
+    Lemma slf_list_in F f fp : (forall z, List.In z F -> series_live z) ->
       (List.In fp (slf_list F f) <-> List.In fp F /\ lf_ok re_match parse_float (sl fp) f = true).
     Proof.
       intros HF. unfold slf_list. rewrite in_map_iff. split.
-      - intros [s [Hfp Hs]]. apply filter_In in Hs. destruct Hs as [Hs Hb]. apply andb_prop in Hb. destruct Hb as [Hm Hl].
+      - intros [s [Hfp Hs]]. apply filter_In in Hs. destruct Hs as [Hs Hb]. apply andb_prop in Hb. destruct Hb as [Hb Hl].
+        apply andb_prop in Hb. destruct Hb as [Hb _]. apply andb_prop in Hb. destruct Hb as [Hm _].
         apply memz_in in Hm. subst fp. rewrite (sl_series s Hs). tauto.
-      - intros [Hin Hl]. destruct (HF fp Hin) as [s [Hs Hfp]]. exists s. split; [exact Hfp|].
-        apply filter_In. split; [exact Hs|]. subst fp. rewrite (sl_series s Hs) in Hl. rewrite Hl, andb_true_r. now apply memz_in.
+      - intros [Hin Hl]. destruct (HF fp Hin) as [s [Hs [Hfp [Hd Ht]]]]. exists s. split; [exact Hfp|].
+        apply filter_In. split; [exact Hs|]. subst fp. rewrite (sl_series s Hs) in Hl. rewrite Hl, Ht, !andb_true_r.
+        apply andb_true_intro. split; [now apply memz_in | now apply Z.leb_le].
     Qed.
     Lemma fp_chain_in ms : forall fs fp, ms <> [] -> (List.length ms <= 64)%nat ->
       (forall m, List.In m ms -> matcher_val_ok re_match m "" = true ->
@@ -969,7 +979,7 @@ Section BRIDGE.
       - cbn [fold_left forallb]. rewrite (fp_sel_sem ms fp Hne Hlen Hguard). tauto.
       - rewrite fold_left_app. cbn [fold_left]. rewrite slf_list_in.
         + rewrite IH, forallb_app. cbn [forallb]. rewrite andb_true_r, andb_true_iff. tauto.
-        + intros z Hz. apply IH in Hz. destruct Hz as [[s [Hs [Hfp _]]] _]. now exists s.
+        + intros z Hz. apply IH in Hz. exact (proj1 Hz).
     Qed.
 
     Lemma stage_split ls line : forall ppl, forallb stage_supported ppl = true ->
